@@ -1766,9 +1766,14 @@ impl EditDriver {
                     let mem = *c.t.pick(&live);
                     let is64 = w.m[mem as usize].is64;
                     let off = c.t.below(32) as i64;
-                    let (ie, dbg) = init_expr_of(if is64 { VT::I64 } else { VT::I32 }, off, None, None);
+                    // one time in three (by position, not a tape read) the offset is a global.get of
+                    // an imported immutable global of the address type, when there is one
+                    let aty = if is64 { VT::I64 } else { VT::I32 };
+                    let gcand: Vec<u32> = w.live_g().into_iter().filter(|g| w.g[*g as usize].import && !w.g[*g as usize].mutable && w.g[*g as usize].ty == aty).collect();
+                    let get = if !gcand.is_empty() && (k as usize + n) % 3 == 0 { Some(gcand[(k as usize + n / 3) % gcand.len()]) } else { None };
+                    let (ie, dbg) = init_expr_of(aty, off, get, None);
                     let id = *module.add_data(DataSegment { kind: DataSegmentKind::Active { memory_index: mem, offset_expr: ie }, data: bytes.clone(), tag: None });
-                    w.log.push(format!("add_data(active mem {} offset {} {:?}) -> {}", mem, off, bytes, id));
+                    w.log.push(format!("add_data(active mem {} offset {} {:?}) -> {}", mem, if get.is_some() { format!("{:?}", dbg) } else { off.to_string() }, bytes, id));
                     w.model.datas.push(dm::DData { mem: Some(mem), offset: dbg, bytes });
                 }
                 if let Some(n) = w.model.data_count.as_mut() {
@@ -1820,13 +1825,25 @@ impl EditDriver {
                     return Ok(());
                 }
                 let imp_pos = w.imports.iter().position(|r| matches!(r, ImpRef::F(f) if *f == id));
+                let mut mismatch = false;
                 match (w.f[id as usize].import, imp_pos, c.t.below(3)) {
                     (true, Some(ii), 1) => {
                         w.log.push(format!("imports.set_name({:?}, ImportsID {})  [function {}]", name, ii, id));
                         run_lib(|| module.imports.set_name(name.clone(), ImportsID(ii as u32))).map_err(|p| lib_reject("imports.set_name", &p))?;
                     }
-                    (true, Some(_), 2) if !w.f[id as usize].added && !(c.avoid("imports_set_fn_name_after_import_change") && w.imports_changed) => {
-                        if w.imports_changed {
+                    // known finding: the call counts function imports in import-section order,
+                    // so it is only right while the target's ordinal among them equals its
+                    // FunctionID (not for a converted local function, whose entry is appended
+                    // behind imports with higher IDs).  Only that case is the known class;
+                    // additions and deletions that leave ordinal == ID stay in the main domain.
+                    (true, Some(ii), 2)
+                        if !w.f[id as usize].added && {
+                            let ord = w.imports[..ii].iter().filter(|r| matches!(r, ImpRef::F(_))).count() as u32;
+                            mismatch = ord != id;
+                            !(mismatch && c.avoid("imports_set_fn_name_after_import_change"))
+                        } =>
+                    {
+                        if mismatch {
                             ap.trigger.push("imports_set_fn_name_after_import_change");
                         }
                         w.log.push(format!("imports.set_fn_name({:?}, FunctionID {})", name, id));
